@@ -760,6 +760,8 @@ def case_texts(seed, idx):
         texts = dict(texts, gtf=gencode_extras(rng, texts['gtf']), gencode_extras=True)
     if rng.random() < 0.35:
         texts = dict(texts, gtf=ensembl_dialect(rng, texts['gtf']), ensembl_dialect=True)
+    if rng.random() < 0.12:
+        texts = dict(texts, gtf=texts['gtf'].rstrip('\n'), no_final_newline=True)    # last line not newline-terminated
     return texts, demo, rng
 
 
